@@ -500,6 +500,49 @@ func c10(c *Ctx) {
 		}
 		hs.Stop()
 	}
+	// ---- TS client against the same hook servers: any failure that is not a violation list is an
+	// ApiError carrying the wire status and the wire body ----
+	if node != nil && tsClient != "" {
+		for _, hook := range []string{"status-msg", "status400-msg", "msg", "body"} {
+			hs, err := serveGo(ch, []string{pkg + ".ErrService"}, hook, false)
+			if err != nil {
+				c.R.Harness("cannot serve: " + err.Error())
+				break
+			}
+			caseID := fmt.Sprintf("err/ts-client/hook=%s/handler-plain-error/json", hook)
+			if c.Want(caseID) {
+				hs.Script("", map[string]any{"err": map[string]any{"kind": "plain", "message": "boom"}})
+				t, _ := enc.Message(validDo(doMD))
+				ret, err := callTS(node, tsClient, "ErrServiceClient", hs.URL, "do", jsonmap.Resolve(t), map[string]any{"copts": map[string]any{"defaultHeaders": map[string]string{"X-Key": "k"}}})
+				c.R.Eval(1)
+				wireEvs, _ := syncEvents(ch)
+				if err != nil {
+					c.R.Inconclusive(caseID, "tscall:"+err.Error())
+				} else {
+					wireBody, wireStatus := "", int64(0)
+					for _, e := range wireEvs {
+						if e.Str("ev") == "wire" {
+							wireBody, wireStatus = string(unb64(e.Str("resp_body"))), e.Int("status")
+						}
+					}
+					rp := map[string]any{"proto": protoText, "hook": hook, "client_return": ret, "wire_status": wireStatus, "wire_response_body": wireBody}
+					te := oasM(ret["err"])
+					switch {
+					case te == nil:
+						c.R.Violate(caseID, "client-returned-no-error", "", rp)
+					case te["cls"] != "ApiError":
+						c.R.Violate(caseID, "client-error-type", fmt.Sprint(te["cls"]), rp)
+					case fmt.Sprint(te["statusCode"]) != fmt.Sprint(wireStatus):
+						c.R.Violate(caseID, "client-status-differs", "", rp)
+					case fmt.Sprint(te["body"]) != wireBody:
+						c.R.Violate(caseID, "client-body-differs", "", rp)
+					}
+					c.R.Decided(caseID)
+				}
+			}
+			hs.Stop()
+		}
+	}
 	// ---- TS server error surfacing ----
 	if node != nil && tsServer != "" {
 		c10ts(c, node, tsServer, protoText)
